@@ -16,6 +16,7 @@ pub struct Totals {
     pub ends: u64,
     pub nontrivial: u64,
     pub max_stack: u64,
+    pub max_alloc: u64,
     pub faults_configured: BTreeMap<String, u64>,
     pub faults_fired: BTreeMap<String, u64>,
     pub families: BTreeMap<String, u64>,
@@ -38,10 +39,17 @@ impl Totals {
             self.nontrivial += 1;
         }
         self.max_stack = self.max_stack.max(out.max_stack as u64);
+        self.max_alloc = self.max_alloc.max(out.max_alloc as u64);
         let kind = crate::fault::FaultPlan::from_vec(&case.fault).kind_name();
         *self.faults_configured.entry(kind.to_string()).or_default() += 1;
         if out.fired > 0 {
             *self.faults_fired.entry(kind.to_string()).or_default() += 1;
+        }
+        if case.knob("fscope", 0) > 0 && kind != "none" {
+            *self.faults_configured.entry("section_scoped".into()).or_default() += 1;
+            if out.fired > 0 {
+                *self.faults_fired.entry("section_scoped".into()).or_default() += 1;
+            }
         }
         if case.knobs.contains_key("truncated_at") {
             *self.faults_configured.entry("truncation".into()).or_default() += 1;
@@ -92,6 +100,7 @@ impl Totals {
             "ends": self.ends,
             "nontrivial": self.nontrivial,
             "max_stack": self.max_stack,
+            "max_alloc": self.max_alloc,
             "faults_configured": m(&self.faults_configured),
             "faults_fired": m(&self.faults_fired),
             "families": m(&self.families),
